@@ -446,7 +446,8 @@ def check(pid, P, tier, seed, work, replay, t0):
         for sh in range(nshards):
             ops_p = os.path.join(work, "%s.%d.ops" % (sfx, sh))
             with open(ops_p, "w") as fo:
-                p = subprocess.Popen([h, "gen", stream, str(seed * 1000 + sh), tier], stdout=fo, stderr=subprocess.PIPE, text=True)
+                p = subprocess.Popen([h, "gen", stream, str(seed * 1000 + sh), tier], stdout=fo, stderr=subprocess.PIPE, text=True,
+                                     env=dict(os.environ, VERIF_SHARDS=str(nshards)))
             procs.append((sh, ops_p, p))
         for sh, ops_p, p in procs:
             _, err = p.communicate()
